@@ -208,11 +208,14 @@ func coqPyObs(v any) string {
 func main() {
 	gologging.SetLevel(gologging.CRITICAL, "plz")
 	lib.Main("C16", func(c *lib.Ctx) {
-		c.Model("From PlzV Require Import Model.C16_Syntax Model.C16_Eval Model.C16.", "C16.case", "C16.check")
+		c.Model("From PlzV Require Import Model.C16_Syntax Model.C16_Eval Model.C16 Model.C16_Pure.", "C16_Pure.case", "C16_Pure.check")
 		c.Rule("programs of the BUILD language generated as ASTs (typed trees flattened with only the parentheses CPython needs, so chains of 3-6 operators of mixed " +
 			"precedence; negative/large ints, non-ASCII strings, lists, dicts, comprehensions with filters, functions with defaults, for/if, builtins len sorted reversed " +
 			"range enumerate zip any all min max str join split keys), printed once, the text parsed and interpreted by the real asp (printer validated: the real parser's " +
-			"AST must equal the generated one) and executed by python3; plus one witness per known difference and the pre-fix corpus, and an ill-typed stream. " +
+			"AST must equal the generated one) and executed by python3; plus one witness per known difference and the pre-fix corpus, an ill-typed stream, and a stream " +
+			"aimed at the PURE fragment of Model/C16_Pure.v (chains over ints/strings/lists with list truthiness, inline if, list +, if/elif/else, for with break/continue, " +
+			"+= on scalars, assert); every single-file program is ALSO a PPure case: the Go verdict on membership in the fragment must equal Coq's in_pure_subset on the " +
+			"same AST, and whenever the reference run pure_run succeeds the real interpreter must have run without error, agreed with python3, and printed its globals. " +
 			"distinct = distinct program texts; non-trivial = a chain of >= 2 operators of different precedence, or a list/dict/function/loop")
 
 		var items []*item
@@ -222,6 +225,7 @@ func main() {
 			add(&item{name: "tpl:" + t.Name, stream: "template", tpl: &t, defs: t.Defs, build: t.Build, raw: t.Raw})
 		}
 		nChain, nProg, nMal, nDefs := c.Scale(320, 12000), c.Scale(240, 8000), c.Scale(40, 1500), c.Scale(40, 1500)
+		nPure := c.Scale(220, 8000)
 		for i := 0; i < nChain; i++ {
 			g := aspgen.NewGen(c.Rng.Fork())
 			g.AllowDiv = i%25 == 0
@@ -234,6 +238,9 @@ func main() {
 		for i := 0; i < nMal; i++ {
 			g := aspgen.NewGen(c.Rng.Fork())
 			add(&item{name: fmt.Sprintf("bad:%d", i), stream: "malformed", build: g.Malformed()})
+		}
+		for i := 0; i < nPure; i++ {
+			add(&item{name: fmt.Sprintf("pure:%d", i), stream: "pure", build: PureProgram(c.Rng.Fork())})
 		}
 		for i := 0; i < nDefs; i++ {
 			// the same kind of program, but interpreted as a subincluded file (optimise + optimiseExpressions, frozen
@@ -452,7 +459,7 @@ func main() {
 				continue
 			}
 			maxOps, classes := chainStats(append(append(aspgen.Prog{}, it.defs...), it.build...))
-			nontrivial := maxOps >= 2 || it.stream == "program" || it.stream == "defs"
+			nontrivial := maxOps >= 2 || it.stream == "program" || it.stream == "defs" || it.stream == "pure"
 			c.HistN("max_chain_ops", maxOps)
 			for _, cl := range classes {
 				c.Hist("chain_class", cl)
@@ -468,8 +475,28 @@ func main() {
 			if it.defs != nil {
 				js["defs"] = aspgen.Source(it.defs)
 			}
-			c.Case(lib.App("CAsp", lib.Bool(it.loose), defs, lib.List([]string{aspgen.CoqProg(it.build)}), lib.List([]string{coqOutcome(it.asp)})),
+			c.Case(lib.App("PBase", lib.App("CAsp", lib.Bool(it.loose), defs, lib.List([]string{aspgen.CoqProg(it.build)}), lib.List([]string{coqOutcome(it.asp)}))),
 				js, it.pysrc, nontrivial)
+			if it.defs == nil && !hasOctal(it.build) { // (an octal literal: the AST holds asp's reading of the digits, python3 reads another number)
+				// membership in the pure fragment (Go verdict against Coq's), and the reference run against the real runs
+				flag := inPureSubset(it.build)
+				aspOK := it.asp.Err == ""
+				agree := it.verdict == "agree"
+				globals := "[]"
+				if aspOK {
+					globals = aspgen.CoqGlobals(it.asp.Final)
+				}
+				c.Case(lib.App("PPure", lib.Bool(flag), aspgen.CoqProg(it.build), lib.Bool(aspOK), lib.Bool(agree), globals),
+					map[string]any{"name": it.name + ":pure", "src": it.src, "in_pure_subset": flag, "asp_ok": aspOK, "agree": agree}, "pure:"+it.pysrc, flag && nontrivial)
+				if flag {
+					c.Hist("pure_subset", "in:"+it.verdict)
+					if it.verdict == "differ" {
+						c.Note("in_pure_subset program on which asp and CPython differ (an integer operation outside int_safe, or a type-dependent trigger the reference run refuses): %s", firstLine(it.src))
+					}
+				} else {
+					c.Hist("pure_subset", "out")
+				}
+			}
 			// the reference model against python3 (same AST, CPython's semantics)
 			if it.defs == nil && it.stream != "malformed" && !it.py.Float && len(it.py.Skipped) == 0 && !hasOctal(it.build) {
 				obs := "OErr"
@@ -480,7 +507,7 @@ func main() {
 					}
 					obs = "(OGlobals [] " + lib.List(kv) + ")"
 				}
-				c.Case(lib.App("CPy", lib.Bool(it.loose || strings.Contains(it.src, " / ")), aspgen.CoqProg(it.build), obs),
+				c.Case(lib.App("PBase", lib.App("CPy", lib.Bool(it.loose || strings.Contains(it.src, " / ")), aspgen.CoqProg(it.build), obs)),
 					map[string]any{"name": it.name + ":py", "src": it.src, "python": it.py}, "py:"+it.pysrc, false)
 			}
 		}
